@@ -244,6 +244,7 @@ def relabel(spec, style="per-kind"):
         for nd in nodes:
             used.add((key, k, nd))
         c["label"] = f"{base} {k}"
+    spec["relabelled"] = style
     return spec
 
 FUELS_ENGINE = [("DIESEL", "FOSSIL"), ("HFO", "FOSSIL"), ("NATURAL_GAS", "FOSSIL"), ("NATURAL_GAS", "BIO"), ("METHANOL", "FOSSIL"),
@@ -374,6 +375,8 @@ def gen_electric_plant(rng, n_swb=None, max_sources=3, with_storage=None, with_p
     """Spec of an electric plant: switchboards with sources, loads/drives, optional storage and PTI/PTO, and a breaker graph."""
     if n_swb is None:
         n_swb = int(rng.choice([1, 2, 3, 4, 5], p=[0.2, 0.35, 0.25, 0.12, 0.08]))
+    if ids is None and rng.random() < 0.25:        # switchboards numbered as on the drawings, not 1..n
+        ids = sorted(int(x) for x in rng.choice(range(1, 40), size=n_swb, replace=False))
     swbs = ids or list(range(1, n_swb + 1))
     comps_ = []
     # a switchboard fed by storage only (battery room): allowed, it needs a source *or* storage
